@@ -19,6 +19,7 @@ import ast
 import itertools
 import pathlib
 import shutil
+import signal
 import tempfile
 import typing
 
@@ -128,11 +129,17 @@ def check_tree(root, types, outdir: pathlib.Path, lang: str) -> typing.List[str]
     type_paths: typing.Dict[typing.Any, pathlib.Path] = {}
     count_types: typing.Dict[typing.Any, int] = {}
 
+    on_path: typing.Set[int] = set()
+
     def walk(ns, depth):
         raw = ".".join(ns._namespace_components)
+        if id(ns) in on_path:  # a cycle is not a tree; do not follow it
+            errs.append(f"namespace {raw} is its own descendant (cycle in the parent/child links)")
+            return
         if raw in seen_ns:
             errs.append(f"namespace {raw} occurs twice in the tree")
         seen_ns[raw] = ns
+        on_path.add(id(ns))
         for t, p in ns.get_nested_types():
             count_types[t] = count_types.get(t, 0) + 1
             type_paths[t] = p
@@ -144,6 +151,7 @@ def check_tree(root, types, outdir: pathlib.Path, lang: str) -> typing.List[str]
             if ch._namespace_components[:-1] != ns._namespace_components:
                 errs.append(f"{'.'.join(ch._namespace_components)} nested under {raw}")
             walk(ch, depth + 1)
+        on_path.discard(id(ns))
 
     if root._parent is not None:
         errs.append("root has a parent")
@@ -188,6 +196,32 @@ def check_tree(root, types, outdir: pathlib.Path, lang: str) -> typing.List[str]
     return errs
 
 
+NATIVE_DEADLINE_S = 60  # per tree; the nominal cost is milliseconds, so machine load cannot reach this
+
+
+class _Deadline(Exception):
+    pass
+
+
+class _deadline:
+    """SIGALRM guard (main thread) around calls into the real code: a change that makes the namespace model cyclic
+    must end as a reported violation with its input, not as a check that never returns."""
+
+    def __init__(self, seconds: int):
+        self.seconds = seconds
+
+    def __enter__(self):
+        def on_alarm(signum, frame):
+            raise _Deadline()
+        self.old = signal.signal(signal.SIGALRM, on_alarm)
+        signal.alarm(self.seconds)
+
+    def __exit__(self, *exc):
+        signal.alarm(0)
+        signal.signal(signal.SIGALRM, self.old)
+        return False
+
+
 def bounded_tree(run, args):
     import pydsdl
     from nunavut._namespace import build_namespace_tree
@@ -212,12 +246,21 @@ def bounded_tree(run, args):
                         out = base / f"o{si}_{lang}_{sp}"
                         outarg = str(out) if sp == "abs" else (str(out) + "/" if sp == "trailing-slash" else str(pathlib.Path("..") / out.relative_to(base.parent) if False else out))
                         ctx = render.language_context(lang)
-                        root = build_namespace_tree(list(order), str(src), outarg, ctx)
                         n += 1
-                        errs = check_tree(root, types, pathlib.Path(outarg), lang)
+                        try:
+                            with _deadline(NATIVE_DEADLINE_S):
+                                root = build_namespace_tree(list(order), str(src), outarg, ctx)
+                                errs = check_tree(root, types, pathlib.Path(outarg), lang)
+                        except _Deadline:
+                            errs = [f"build_namespace_tree / traversal of its result did not return within {NATIVE_DEADLINE_S} s on a namespace of {len(types)} types "
+                                    "(nominal: milliseconds): the parent/child links do not form a tree, or lookup is not total"]
+                        except RecursionError:
+                            errs = ["traversal of the namespace model recurses without end: the parent/child links do not form a tree"]
                         if errs and first is None:
                             first = {"input": {"shape": [(list(s), nm, v) for s, nm, v in items], "root": rootname, "language": lang, "output_dir_spelling": sp,
                                                "order": [str(t) for t in order]}, "why": "; ".join(errs[:3]), "evaluations": n}
+                            if "did not return within" in errs[0]:
+                                return first, n  # one non-terminating tree decides; do not pay the deadline once per tree
         # the empty type set (what `--generate-support only` builds): support files stay inside the output directory
         from nunavut.jinja import SupportGenerator
         for lang in langs:
